@@ -321,6 +321,26 @@ pub fn run(args: &[String]) {
                             }
                             rec["len"] = json!(o.len());
                             if foreign { rec["foreign"] = json!(count(&o, FOREIGN)); }
+                            // the file entry point (patch in place if possible, rewrite otherwise) on a copy of the result:
+                            // stores one byte shorter, of the same size and one byte longer than the one just embedded
+                            if !is_bmff {
+                                let ext = fx.rsplit('.').next().unwrap_or("bin").to_lowercase();
+                                let dir = std::env::temp_dir().join(format!("vh_c07_{}", std::process::id()));
+                                let _ = std::fs::create_dir_all(&dir);
+                                let path = dir.join(format!("probe.{ext}"));
+                                let mut fw = vec![];
+                                for d in [-1i64, 0, 1] {
+                                    let l2 = (store.len() as i64 + d).max(70) as usize;
+                                    let st2 = build_store("F", l2, &mut StdRng::seed_from_u64(7 + l2 as u64));
+                                    if std::fs::write(&path, &o).is_err() { continue; }
+                                    let r = c2pa::jumbf_io::save_jumbf_to_file(&st2, &path, Some(&path));
+                                    let back = std::fs::read(&path).unwrap_or_default();
+                                    let res = match &r { Ok(()) => match load_jumbf_from_memory(mime, &back) { Ok(b) => if b == st2 { "equal".to_string() } else { format!("differs:{}:{}", b.len(), st2.len()) }, Err(e) => format!("err:{}", err_kind(&e)) }, Err(e) => format!("refused:{}", err_kind(e)) };
+                                    fw.push(json!({"delta": l2 as i64 - store.len() as i64, "ok": r.is_ok(), "read": res}));
+                                }
+                                let _ = std::fs::remove_dir_all(&dir);
+                                rec["fwrite"] = json!(fw);
+                            }
                             cur = o;
                         }
                         Err(e) => { rec["ok"] = json!(false); rec["err"] = json!(err_kind(&e)); }
